@@ -357,6 +357,126 @@ func generate(f *rep.Flags, bounds map[string]any, emit func(*Case)) {
 		}
 	}
 
+	// F2c: two keys of one removable kind, every combination of {none, set, remove, remove+set}
+	// per key and plugin, both list orders (positional handling of the collected lists)
+	if want("twokey") {
+		ch := channels[0]
+		nTwo := 3
+		if th {
+			nTwo = 4
+		}
+		for _, rk := range []string{"annotation", "env", "mount", "device"} {
+			k := items.K(rk)
+			i0, i1 := item0(k), item1(k)
+			keyActs := []int{aNone, aSet, aRemove, aRemSet}
+			type popt struct {
+				a0, a1 int
+				swap   bool
+			}
+			var popts []popt
+			for _, a0 := range keyActs {
+				for _, a1 := range keyActs {
+					popts = append(popts, popt{a0, a1, false})
+					if a0 != aNone && a1 != aNone {
+						popts = append(popts, popt{a0, a1, true})
+					}
+				}
+			}
+			for n := 2; n <= nTwo; n++ {
+				for _, ov := range origVariants(ch, []merge.Item{i0, i1}, th) {
+					if ov.name == "full" && !th {
+						continue
+					}
+					if n == 4 && ov.name != "empty" {
+						continue
+					}
+					vec := make([]int, n)
+					var rec func(i int)
+					rec = func(i int) {
+						if i == n {
+							c := &Case{Family: "twokey", Chan: ch.name, Focus: []string{rk, rk}, Prepop: ov.name,
+								Req: merge.Request{Kind: "create", ID: own, Orig: ov.m, OrigList: ov.l}}
+							for p, oi := range vec {
+								o := popts[oi]
+								a, b := opsFor(i0, o.a0, p), opsFor(i1, o.a1, p)
+								for j := range b {
+									if !b[j].Remove {
+										b[j].Val = pval(p, 1)
+									}
+								}
+								ops := append(append([]merge.Op{}, a...), b...)
+								if o.swap {
+									ops = append(append([]merge.Op{}, b...), a...)
+								}
+								c.Resps = append(c.Resps, respFor(ch, ops, false))
+							}
+							out(c)
+							return
+						}
+						for oi := range popts {
+							if n == 4 && popts[oi].swap {
+								continue
+							}
+							vec[i] = oi
+							rec(i + 1)
+						}
+					}
+					rec(0)
+				}
+			}
+		}
+	}
+
+	// F2d: responses carrying an adjustment AND updates of other containers at once
+	if want("adjupd") {
+		for ki := range items.Kinds {
+			k := &items.Kinds[ki]
+			if !k.InAdjust || k.Append {
+				continue
+			}
+			it := item0(k)
+			for n := 2; n <= 3; n++ {
+				// per plugin: adjustment action on the item x update {none, other container, other container ignore-failure}
+				acts := []int{aNone, aSet}
+				if k.Removable && k.Name != "args" {
+					acts = append(acts, aRemSet)
+				}
+				type po struct{ a, u int }
+				var popts []po
+				for _, a := range acts {
+					for u := 0; u < 3; u++ {
+						popts = append(popts, po{a, u})
+					}
+				}
+				vec := make([]int, n)
+				var rec func(i int)
+				rec = func(i int) {
+					if i == n {
+						c := &Case{Family: "adjupd", Chan: "create.adjust+update", Focus: []string{k.Name, "updates"}, Prepop: "empty",
+							Req: merge.Request{Kind: "create", ID: own, Orig: map[merge.Item]int{}}}
+						for p, oi := range vec {
+							o := popts[oi]
+							r := merge.Response{Adjust: opsFor(it, o.a, p)}
+							if o.u > 0 {
+								// every plugin updates its own field of the other container: never a conflict there
+								fld := []merge.Item{{Kind: "mem.limit"}, {Kind: "cpu.shares"}, {Kind: "cpu.quota"}}[p]
+								r.Updates = []merge.Update{{Target: otherX, Ignore: o.u == 2, Sets: []merge.Op{{Item: fld, Val: pval(p, 2)}}}}
+							}
+							c.Resps = append(c.Resps, r)
+						}
+						out(c)
+						return
+					}
+					for oi := range popts {
+						vec[i] = oi
+						rec(i + 1)
+					}
+				}
+				rec(0)
+			}
+		}
+	}
+
 	// F3: update structure: several targets, several updates per plugin, ignore-failure flags
 	if want("updates") {
 		fields := []merge.Item{{Kind: "mem.limit"}, {Kind: "cpu.shares"}}
@@ -439,6 +559,28 @@ func generate(f *rep.Flags, bounds map[string]any, emit func(*Case)) {
 		} else {
 			emitU([]int{all, all})
 			emitU([]int{one, one, one})
+			// three plugins, the middle one with two updates, on two targets only
+			var s2 []uopt
+			for _, u := range single {
+				if u.target != otherY {
+					s2 = append(s2, u)
+				}
+			}
+			var p2 [][]uopt
+			p2 = append(p2, nil)
+			for _, a := range s2 {
+				p2 = append(p2, []uopt{a})
+			}
+			one2 := len(p2)
+			for _, a := range s2 {
+				for _, b := range s2 {
+					p2 = append(p2, []uopt{a, b})
+				}
+			}
+			saved := popts
+			popts = p2
+			emitU([]int{one2, len(p2), one2})
+			popts = saved
 		}
 		bounds["updates_single_options"] = len(single)
 	}
